@@ -28,6 +28,7 @@ type cfg struct {
 	ids       string // which side knows the peer's SHIP ID: none | client | server | both
 	arbitrary bool   // timers may fire at any point
 	cliCancel bool   // the client side's user may cancel while the client waits for the server's hello
+	reapprove bool   // trust is there from the start and the server's user approves once more at any moment (registering a known service again)
 }
 
 func (c cfg) name() string {
@@ -38,6 +39,9 @@ func (c cfg) name() string {
 	n := fmt.Sprintf("%s/trust=%s/swait=%v/cwait=%v/ids=%s", m, c.trust, c.srvAllow, c.cliAllow, c.ids)
 	if c.cliCancel {
 		n += "/clicancel"
+	}
+	if c.reapprove {
+		n += "/reapprove"
 	}
 	return n
 }
@@ -200,7 +204,7 @@ func (w *world) enabled() []string {
 			anyDelivery = true
 		}
 	}
-	if w.c.trust == "approve" && !w.approved && !w.cancelled {
+	if (w.c.trust == "approve" || w.c.reapprove) && !w.approved && !w.cancelled {
 		out = append(out, "APPROVE")
 	}
 	// a pairing can only be cancelled while its request is pending
@@ -445,6 +449,10 @@ func configs(r *hx.Run) []cfg {
 						// the same with a client-side user who may withdraw (timely mode, waiting allowed on both sides)
 						if !arb && sa && ca && ids == "none" && (tr == "paired" || tr == "approve" || r.Thorough()) {
 							out = append(out, cfg{trust: tr, srvAllow: sa, cliAllow: ca, ids: ids, arbitrary: arb, cliCancel: true})
+						}
+						// trust from the start plus a redundant approval at any moment
+						if sa && ca && ids == "none" && (tr == "paired" && !arb || (tr == "paired" || tr == "auto") && r.Thorough()) {
+							out = append(out, cfg{trust: tr, srvAllow: sa, cliAllow: ca, ids: ids, arbitrary: arb, reapprove: true})
 						}
 					}
 				}
